@@ -230,10 +230,10 @@ def applyOpt (e : Eff) (c : UInt8) (arg : Bytes) : Eff :=
   else if c == 70 then { e with cfg := some arg }                                        -- F
   else if c == 105 then { e with ids := e.ids ++ [arg] }                                 -- i
   else if c == 111 then                                                                  -- o
-    let kv := splitOpt arg
-    if kv.1 == kwStrict then (if e.strict.isNone then { e with strict := some kv.2 } else e)
-    else if kv.1 == kwKnownHosts then
-      (if e.knownHosts.isNone then { e with knownHosts := some kv.2 } else e)
+    if (splitOpt arg).1 == kwStrict then
+      (if e.strict.isNone then { e with strict := some (splitOpt arg).2 } else e)
+    else if (splitOpt arg).1 == kwKnownHosts then
+      (if e.knownHosts.isNone then { e with knownHosts := some (splitOpt arg).2 } else e)
     else e
   else e
 
